@@ -2,7 +2,7 @@
    Everything here is executable Gallina; no proofs. *)
 From Coq Require Import List NArith ZArith String Bool.
 Import ListNotations.
-From UV Require Import Py.Val Py.Str Py.Utf8 Py.Regex Py.UrlLib Gen.Patterns Ural.TrieDict Ural.Utils Ural.HostnameTrieSet Ural.SuffixTrie Ural.Tld Proofs.SuffixTrieFacts Py.Pct Ural.Quote Spec.C14 Gen.Tables.
+From UV Require Import Py.Val Py.Str Py.Utf8 Py.Regex Py.UrlLib Gen.Patterns Ural.TrieDict Ural.Utils Ural.HostnameTrieSet Ural.SuffixTrie Ural.Tld Proofs.SuffixTrieFacts Py.Pct Ural.Quote Spec.C14 Gen.Tables Ural.FormatUrl.
 Open Scope string_scope.
 
 Definition opt_wrap (o : option val) : val :=
@@ -271,6 +271,43 @@ Definition do_c14spec (arg : val) : val :=
   | _ => vbad
   end.
 
+(* ---------------- format_url / add_query_argument (C20) ---------------- *)
+Definition argval_of (v : val) : argval :=
+  match v with
+  | VNone => ANone
+  | VB true => ATrue
+  | VB false => AFalse
+  | VS s => AOther s
+  | _ => ANone
+  end.
+
+Definition items_of (l : list val) : list (str * argval) :=
+  flat_map (fun x => match x with VL [VS k; v] => [(k, argval_of v)] | _ => [] end) l.
+
+Definition opt_str_of (v : val) : option str := match v with VS s => Some s | _ => None end.
+
+(* arg: base path args fragment ext ; path: ~ | "str" | ("a" "b") ; args: ~ | (T/F-is-dict ((k v) ...)) *)
+Definition do_format_url (arg : val) : val :=
+  match arg with
+  | VL [VS base; path; args; fragment; ext] =>
+      let p := match path with VS s => PStr s | VL l => PList (strs_of l) | _ => PNone end in
+      let a := match args with VL [VB d; VL l] => Some (d, items_of l) | _ => None end in
+      VS (format_url base p a (opt_str_of fragment) (opt_str_of ext))
+  | _ => vbad
+  end.
+
+Definition vqres (q : qres) : val :=
+  match q with QNone => VNone | QTrue => VB true | QVal s => VS s end.
+
+Definition do_queryarg (arg : val) : val :=
+  match arg with
+  | VL [VS op; ev; VS url; VS name; value; VB q] =>
+      if str_eqb op (lit "add") then VS (add_query_argument url name (argval_of value) q)
+      else if str_eqb op (lit "get") then vres vqres (get_query_argument (env_of ev) url name)
+      else vbad
+  | _ => vbad
+  end.
+
 (* ---------------- dispatch ---------------- *)
 Definition table : list (str * (val -> val)) :=
   [ (lit "triedict", do_triedict);
@@ -283,7 +320,9 @@ Definition table : list (str * (val -> val)) :=
     (lit "tld", do_tld);
     (lit "psl_bundled", do_psl_bundled);
     (lit "quote", do_quote);
-    (lit "c14spec", do_c14spec) ].
+    (lit "c14spec", do_c14spec);
+    (lit "format_url", do_format_url);
+    (lit "queryarg", do_queryarg) ].
 
 Fixpoint find_fn (name : str) (l : list (str * (val -> val))) : option (val -> val) :=
   match l with
